@@ -290,6 +290,26 @@ func (c07) Run(c Case, env *Env) Result {
 		res.Sample(map[string]interface{}{"kind": "int64 samples", "seed": c.Seed, "count": c.Count})
 	case "kinds":
 		c07kinds(c, env, &res)
+	case "lit":
+		// committed witnesses: out-of-range Go integers at top level must be exact or rejected
+		for _, v := range []interface{}{int(1) << 40, -(int(1) << 40), uint64(1) << 63, uint(1<<64 - 1)} {
+			res.Evals++
+			res.NTCount++
+			o := roundTrip(v)
+			switch {
+			case o.Panic != nil:
+				viol(o.Panic.Class, []string{"beyond-wire-type"}, 0, fmt.Sprintf("%T %v: panic %s", v, v, o.Panic.Msg))
+			case o.EncErr != nil:
+				// fail-stop is allowed
+			case o.DecErr != nil:
+				viol("dec-error", []string{"beyond-wire-type"}, 0, fmt.Sprintf("%T %v: %v", v, v, o.DecErr))
+			default:
+				if !sameNumber(reflect.ValueOf(v), o.Dec) {
+					viol("silent-alteration", []string{"beyond-wire-type"}, 0, fmt.Sprintf("%T %v (%x) decoded as %T %v", v, v, o.Wire, o.Dec, o.Dec))
+				}
+			}
+		}
+		res.Sample(map[string]interface{}{"kind": "literal out-of-range integers"})
 	}
 	return res
 }
